@@ -57,6 +57,16 @@ chk("C05",
     "Trusted: dsim/ref/trees.py, dsim/ref/graph.py. <= 10 labels. Known finding K1 (breadth-first generator) is reported as KNOWN-FINDING.",
     "6.5")
 
+chk("C14",
+    "deterministic simulation: LOCKSTEP - the insertion stream of a simulated search (either flavour steering, with restarts and schedule faults) is mirrored event by event into a fresh default and a fresh forget rule DB; the two are compared after every single insertion (refinement in both directions)",
+    "Seeded exploration; each DB is the other's reference after every insertion: verified labels, stored rules, contains() on stored and non-stored keys, has_specification at seeded query points, and re-application of the strategies handed back.",
+    SEARCH_NOTE, "6.14")
+
+chk("C17",
+    "deterministic simulation with crash-point enumeration: the simulated clock makes the time limit strike after exactly k work packets; at that point the searcher is pickled, restored, compared, and original and restored are run forward as twins under cloned clock and random streams; 'sweep' runs do this for every k until the search ends; 'resume' runs split the remaining work over further interrupted calls",
+    "Seeded exploration plus, in sweep runs, exhaustive enumeration of the crash points of one search (reported separately in the evidence).",
+    SEARCH_NOTE + " Crash points are packet boundaries (the only place the library checks its time limit and the only state a user can pickle).", "6.17")
+
 NA.update({
  "C07": "pure function of (specification, n, parameters): no clock, random source, I/O, ordering or restart point is involved, so there is no schedule or fault for a simulator to vary (DESIGN.md section 7)",
  "C09": "pure function of (rule form, n) given the children's term tables; nothing schedule-, fault- or history-dependent (DESIGN.md section 7)",
